@@ -172,12 +172,24 @@ async def continuous_watch(
     # First, list the resources regularly, and get the list's resource version.
     # Simulate the events with type "None" event - used in detection of causes.
     try:
-        objs, resource_version = await fetching.list_objs(
+        # The listing (with all its retries) is abandoned if the operator gets paused meanwhile:
+        # nothing must be listed while paused, and a fresh listing follows the un-pausing anyway.
+        listing = asyncio.create_task(fetching.list_objs(
             logger=logger,
             settings=settings,
             resource=resource,
             namespace=namespace,
-        )
+        ))
+        try:
+            await asyncio.wait({listing, operator_pause_waiter},
+                               return_when=asyncio.FIRST_COMPLETED)
+        finally:
+            if not listing.done():
+                listing.cancel()
+                await asyncio.wait({listing})
+        if listing.cancelled():
+            return
+        objs, resource_version = listing.result()
         for obj in objs:
             yield {'type': None, 'object': obj}
 
